@@ -28,10 +28,15 @@ def gen(rng, k):
         stacks.append(dict(dll='j1939-21', max_cmdt=3, subs=[dict(cid=20, filt=None)],
                            cas=[dict(name=nameY, addr=pref, bypass=False, subs=[21], req=[22])]))
         script.append(dict(t=rng.choice([500, 200000, 700000, 1500000]), s=1, op='ca_start', ca=0, delay=rng.choice([0, 100000])))
+    if comp and aac and pref + 1 < 247 and rng.random() < 0.5:
+        # a third CA with a lower NAME already sits on the address the CA under test will move to when it loses
+        nameZ = (nameX - (1 << 40) - 5000 + rng.randint(0, 1000)) & ~(1 << 48)
+        stacks.append(dict(dll='j1939-21', max_cmdt=3, subs=[], cas=[dict(name=nameZ, addr=pref + 1, bypass=False, subs=[31], req=[32])]))
+        script.append(dict(t=rng.choice([400, 600]), s=2, op='ca_start', ca=0, delay=0))
     # send attempts spread over the whole history
     for _ in range(rng.randint(3, 10)):
         t = rng.choice([200, 900, t_start + 10, t_start + delay + 5, t_start + delay + 100000, t_start + delay + 251000,
-                        900000, 1400000, 1800000, 2600000]) + rng.randint(0, 50)
+                        900000, 1400000, 1800000, 2600000, 3300000, 3900000]) + rng.randint(0, 50)
         r = rng.random()
         if r < 0.4:
             pf = rng.choice([0xEE, 0xD0, 0xFE, 0x10, 0xEA])
@@ -43,7 +48,7 @@ def gen(rng, k):
         elif r < 0.65:
             script.append(dict(t=t, s=0, op='ca_send_message', ca=0, a=[rng.randint(0, 7), rng.choice([0xFECA, 0xEEFF, 0xD055, 0x1FFFF]), dict(seed=rng.getrandbits(20), len=rng.randint(0, 8))]))
         else:
-            script.append(dict(t=t, s=0, op='ca_request', ca=0, a=[rng.choice([0, 0, 1]), rng.choice([0xEE00, 0xEE00, 0xFECA, 0x3FFFF, 0]), rng.choice([255, 0x30, pref])]))
+            script.append(dict(t=t, s=0, op='ca_request', ca=0, a=[rng.choice([0, 0, 1]), rng.choice([0xEE00, 0xEE00, 0xFECA, 0x3FFFF, 0, 0x1EE00, 0x2EE00, 0x3EE00, 0xEEFF, 0xEE30]), rng.choice([255, 0x30, pref])]))
     script.sort(key=lambda e: e['t'])
     return dict(stacks=stacks, lat=[rng.choice([0, 1, 5000])], jit=[1], script=script, horizon=5_000_000)
 
@@ -92,6 +97,13 @@ def oracle(sc, res):
                 continue
             if not any(st == NORMAL and ad == sa for (st, ad) in states):
                 v.append(dict(kind='application-frame-from-unheld-address', t=e[0], id=hex(e[3]), states=list(states)))
+    # holding an address means holding it alone: at the end no other CA may be operational on the address of the CA under test
+    fin = [(i, res.cas[i][0]) for i in range(len(sc['stacks'])) if res.cas[i]]
+    mine = fin[0][1]
+    if mine[0] == NORMAL:
+        for i, c in fin[1:]:
+            if c[0] == NORMAL and c[1] == mine[1]:
+                v.append(dict(kind='operational-on-an-address-another-ca-holds', address=mine[1], other_stack=i))
     for j, js in enumerate(res.job):
         if js != 'alive':
             v.append(dict(kind='job-thread-' + js, stack=j))
